@@ -185,6 +185,9 @@ def lean_obligations(prop, thorough=False):
 def build_engine(engine):
     with Lock("cargo"):
         rc, out, err = sh(["cargo", "build", "--release", "--offline", "--bin", engine], cwd=HARNESS, timeout=3000)
+        if rc == 0 and engine == "macros":
+            # second build with debug assertions and overflow checks off (cases `macn`)
+            rc, out, err = sh(["cargo", "build", "--profile", "nodebug", "--offline", "--bin", engine], cwd=HARNESS, timeout=3000)
     return rc, (out + err)[-8000:]
 
 
@@ -288,11 +291,11 @@ def corpus_lines(engine):
 # shrinking (generic over the line protocol: space separated fields, comma lists, numbers)
 
 # which space-separated fields of a case may be shrunk (list fields: drop elements; numeric: smaller)
-SHRINK_FIELDS = {"mlw": [1, 3, 4], "spy": [3], "fmt": [4], "queue": [3], "queue0": [2], "sock": [5], "holder": [2], "mac": [4]}
+SHRINK_FIELDS = {"mlw": [1, 3, 4], "spy": [3], "fmt": [4], "queue": [3], "queue0": [2], "sock": [5], "holder": [2], "mac": [4], "macn": [4]}
 
 ENGINE_OF = {"mlw": "mlw", "spy": "mlw", "fmt": "fmt", "std": "fmt", "val": "fmt", "raw": "fmt", "queue": "queue", "qstress": "queue", "queue0": "queue",
              "qburst": "queue", "qlatency": "queue", "qdroprace": "queue",
-             "sock": "sock", "sockmt": "sock", "socklock": "sock", "sockcr": "sock", "holder": "holder", "mac": "macros"}
+             "sock": "sock", "sockmt": "sock", "socklock": "sock", "sockcr": "sock", "holder": "holder", "mac": "macros", "macn": "macros"}
 
 
 def engine_of(caseline, default):
